@@ -72,12 +72,15 @@ def showTx (t : Tx) : String :=
   let cookies := match t.cookies with
     | some cs => "[" ++ ",".intercalate (cs.map fun (n, v) => s!"{hexOfBytes n}={hexOfBytes v}") ++ "]"
     | none => "~"
-  let params := ",".intercalate (t.params.map fun p => s!"{hexOfBytes p.name}={hexOfBytes p.value}@{p.source}")
+  let params := ",".intercalate (t.params.map fun p => s!"{hexOfBytes p.name}={hexOfOpt p.value}@{p.source}")
+  let mp := match t.mpart with
+    | some m => s!"{m.flags}:{m.boundaryCount}:{m.done.length + m.cur.toList.length}"
+    | none => "~"
   "tx{" ++ s!"uid={t.uid} rp={t.reqProgress} sp={t.resProgress} flags={t.flags} " ++
   s!"line={hexOfOpt t.reqLine} m={hexOfOpt t.method} mn={t.methodNumber} uri={hexOfOpt t.uri} proto={hexOfOpt t.protocol} pn={t.protocolNumber} h09={if t.is09 then 1 else 0} " ++
   s!"raw=[{hexOfOpt raw.scheme} {hexOfOpt raw.username} {hexOfOpt raw.password} {hexOfOpt raw.hostname} {hexOfOpt raw.port} {raw.portNumber} {hexOfOpt raw.path} {hexOfOpt raw.query} {hexOfOpt raw.fragment}] norm={norm} " ++
   s!"rh=[{showHeaders t.reqHeaders}] tc={t.reqTransferCoding} cl={t.reqContentLength} ml={t.reqMessageLen} el={t.reqEntityLen} ct={hexOfOpt t.reqContentType} " ++
-  s!"host={hexOfOpt t.hostname} port={t.portNumber} cookies={cookies} auth={t.authType}:{hexOfOpt t.authUser}:{hexOfOpt t.authPass} params=[{params}] " ++
+  s!"host={hexOfOpt t.hostname} port={t.portNumber} cookies={cookies} auth={t.authType}:{hexOfOpt t.authUser}:{hexOfOpt t.authPass} params=[{params}] mp={mp} " ++
   s!"rep={t.reqHeaderRepetitions} ign={t.reqIgnoredLines} exp={t.expectedStatus} | " ++
   s!"sline={hexOfOpt t.resLine} sproto={hexOfOpt t.resProtocol} spn={t.resProtocolNumber} st={hexOfOpt t.resStatus} sn={t.resStatusNumber} msg={hexOfOpt t.resMessage} " ++
   s!"sh=[{showHeaders t.resHeaders}] stc={t.resTransferCoding} scl={t.resContentLength} sml={t.resMessageLen} sel={t.resEntityLen} sct={hexOfOpt t.resContentType} " ++
